@@ -8,7 +8,7 @@ from symgo import models
 ID = 'C17'
 PKG = 'changelog'
 P = MOD + '/changelog.'
-ROOTS = [P + 'VerifC17Full', P + 'VerifC17Cut']
+ROOTS = [P + 'VerifC17Full', P + 'VerifC17Cut', P + 'VerifC17Malformed']
 LOW = b'abcdefghijklmnopqrstuvwxyz'
 SRC = LOW + b'0123456789+.-'
 VERC = b'0123456789abcdefghijklmnopqrstuvwxyz.+~'
@@ -19,7 +19,7 @@ META = dict(
     functions_encoded=['changelog.Parse', 'changelog.ParseOne', 'changelog.partition', 'changelog.trim', 'bufio.Reader (from SSA)', 'version.Parse', 'strings.Trim/SplitN/Split (models)'],
     stubs=['time.Parse: uninterpreted (TimeOK, TimeW, TimeE as functions of layout and text; the three well-formed date texts of the templates are assumed to parse)',
            '(time.Time).Equal / Zone / In / FixedZone over those abstract instants; the zone offsets of the three template dates are assumed to be what their text says', 'fmt.Errorf (opaque error)'],
-    bounds={'quick': 'changelogs of 1-2 entries (1-2 distributions, 0-1 extra options, body of 1-2 lines with or without an inner blank line, 1-2 blank lines between entries, final newline or not), leaves of 1-2 symbolic characters; every truncation offset of each',
+    bounds={'quick': 'changelogs of 1-2 entries (1-2 distributions, 0-1 extra options, body of 1-2 lines with or without an inner blank line, 1-2 blank lines between entries, final newline or not; a change line of more than 4096 bytes; malformed entries - indented header, missing header, a date replaced by arbitrary characters or missing - in the first and in the second entry), leaves of 1-2 symbolic characters; every truncation offset of each',
             'thorough': 'up to 3 entries, leaves up to 3 characters'},
     outside_claim=['that time.Parse reads RFC 1123 dates correctly (stdlib)', 'larger changelogs'],
     assumptions=['for a cut inside a date, the shortened date text may or may not parse (uninterpreted), both are explored'])
@@ -54,7 +54,7 @@ def mk_entry(sym, spec, L, idx):
     for i in range(spec['lines']):
         if i and spec['blank']:
             body.append(())
-        body.append(B(b'  * ') + sym.leaf(L, TXT, TXT))
+        body.append(B(b'  * ') + (B(b'x' * spec['long']) if spec.get('long') and i == 0 else ()) + sym.leaf(L, TXT, TXT))
     name = sym.leaf(L, TXT, TXT) + B(b' <') + sym.leaf(L, LOW, LOW) + B(b'@x>')
     return dict(src=src, ver=ver, dists=dists, opts=opts, body=body, name=name, date=DATES[idx % len(DATES)])
 
@@ -117,11 +117,21 @@ def jobs(tier):
         for L in ((1, 2) if tier == 'quick' else (1, 2, 3)):
             js.append(dict(name='full_%d_L%d' % (si, L), kind='full', shape=si, L=L))
         js.append(dict(name='cut_%d' % si, kind='cut', shape=si, L=1))
+    # a change line longer than the 4096-byte buffer of the reader
+    js.append(dict(name='full_long', kind='full', shape=0, L=1, long=4200))
+    js.append(dict(name='full_long2', kind='full', shape=6, L=1, long=4096))
+    # malformed entries: header indented / missing / a date that is no date, in the first or the second entry
+    for what in ('indent', 'nohdr', 'baddate', 'nodate'):
+        for where in (0, 1):
+            for si in ((0, 2) if where == 0 else (6, 8)):
+                js.append(dict(name='bad_%s_%d_%d' % (what, where, si), kind='bad', what=what, where=where, shape=si, L=1))
     return js
 
 
 def build(env, job):
     sh = shapes(env.tier)[job['shape']]
+    if job.get('long'):
+        sh = dict(sh, entries=[dict(e, long=job['long']) for e in sh['entries']])
     sym = Sym()
     entries = [mk_entry(sym, s, job['L'], i) for i, s in enumerate(sh['entries'])]
     doc, info = render(entries, sh)
@@ -133,6 +143,21 @@ def build(env, job):
 
 def run_job(env, job):
     sh, sym, entries, doc, info = build(env, job)
+    if job['kind'] == 'bad':
+        k = job['where']
+        e = entries[k]
+        if job['what'] == 'indent':
+            doc = doc[:info[k]['start']] + (32,) + doc[info[k]['start']:]
+        elif job['what'] == 'nohdr':
+            nl = doc.index(10, info[k]['start'])
+            doc = doc[:info[k]['start']] + doc[nl + 1:]
+        elif job['what'] == 'baddate':
+            # the date replaced by 1-3 arbitrary printable characters
+            doc = doc[:info[k]['date_start']] + sym.leaf(3, TXT, TXT) + doc[info[k]['date_end']:]
+        else:
+            doc = doc[:info[k]['date_start']] + doc[info[k]['date_end']:]
+        return run_harness(env, PKG, 'VerifC17Malformed', [Str(doc)], sym.assume, unwind=len(doc) + 60,
+                           sample=dict(malformed=job['what'], entry=k, entries=sh['entries']))
     if job['kind'] == 'full':
         expect = sum((i['dump'] for i in info), ())
         dates = ()
@@ -172,7 +197,9 @@ def validation_calls(env, seed):
     d1 = b'Ehello\x002.10-1\x00unstable\x00urgency=low\x01\x00\n  * Initial release.\n\n\x00A B <a@b>\x00'
     calls = [('VerifC17Full', [e1, 1, d1, DATES[0]]), ('VerifC17Full', [e1 + b'\n' + e1, 2, d1 + d1, DATES[0] + b'\x00' + DATES[0]]),
              ('VerifC17Cut', [e1[:-1], 0, True, False, b'']), ('VerifC17Cut', [e1[:30], 0, True, False, b'']), ('VerifC17Cut', [e1 + b'\n', 1, False, False, d1]),
-             ('VerifC17Cut', [e1 + b'\nhel', 1, True, False, d1])]
+             ('VerifC17Cut', [e1 + b'\nhel', 1, True, False, d1]),
+             ('VerifC17Malformed', [b' ' + e1]), ('VerifC17Malformed', [e1 + b'\n ' + e1]), ('VerifC17Malformed', [e1[e1.index(b'\n') + 1:]]),
+             ('VerifC17Malformed', [e1.replace(b'Mon, 02 Jan 2006 15:04:05 -0700', b'yesterday')]), ('VerifC17Malformed', [e1.replace(b'Mon, 02 Jan 2006 15:04:05 -0700', b'')])]
     return calls
 
 
